@@ -26,6 +26,9 @@ BYSTANDERS = {
     'setext': ['setext heading words that may wrap', '==='],
     'linkdef': ['[lab el]: /d "some title made of words"'],
     'linkdef2': ["[x]: </long destination> 'title one two three four'"],
+    # '-glued': no blank line between the definition and the paragraph that follows it
+    'linkdef-glued': ["[lab el]: /d 'some title made of words'"],
+    'linkdef2-glued': ['[x]: </long destination> "title one two three four"', "[y]: /e (another title)"],
 }
 UNTOUCHED = ['atx', 'table', 'fence', 'indented', 'html']
 BOUNDS = {'quick': dict(items=3, sub_items=3, depth=2), 'thorough': dict(items=3, sub_items=4, depth=3)}
@@ -95,14 +98,15 @@ def build_doc(items, chain, bystander, where='before'):
     para = ' '.join(ITEMS[i] for i in items).split('\n')
     inner = list(para)
     by_lines = []
+    glued = bool(bystander) and bystander.endswith('-glued')
     if bystander and where == 'inside':
-        inner = BYSTANDERS[bystander] + [''] + inner
+        inner = BYSTANDERS[bystander] + ([] if glued else ['']) + inner
     body, _ = embed(inner, chain)
     if bystander and where == 'inside':
         by_lines = body[:len(BYSTANDERS[bystander])]
     lines = []
     if bystander and where == 'before':
-        lines += BYSTANDERS[bystander] + ['']
+        lines += BYSTANDERS[bystander] + ([] if glued else [''])
         by_lines = list(BYSTANDERS[bystander])
     lines += body
     if 8 in items:
